@@ -1,5 +1,4 @@
 import CsVerif.Model.C09
-import CsVerif.Model.C15
 /-! Line-protocol driver for the C09 model.
 
   hist|histret|histeof|histwild <B|F|U> <nonceOff> <raw> <ops>     ops = comma separated: s<whence>:<off>  r<n>|rn  t
@@ -11,7 +10,10 @@ import CsVerif.Model.C15
   mz <B|F> <nonceOff> <raw>                      pe.find_mz_offset(view) → `ok none|<int>`
   detect <B|F> <maxrange> <raw> <hits l..> <passing l..>   from_file, needle hits and MZ verdicts given
   detectm <B|F> <maxrange> <raw> <hits l..>                from_file, needle hits given, MZ check modelled
-  detectfull <B|F> <maxrange> <raw> <bufsize>              from_file, needle scan by the C15 model
+  detectfull <B|F> <maxrange> <raw> <bufsize>              from_file entirely modelled (`fromFileReal`: real block scanner, C15)
+  detectlog <B|F> <maxrange> <raw> <bufsize>               the same plus what from_file logs at DEBUG level:
+      `<detect answer> <eof_shellcode_offsets l..> <nonce_offsets l..> <tried offsets l..> <their counts l..>`
+  histneg <B|F|U> <nonceOff> <raw> <ops>                   histories with seeks to negative logical positions (as histret)
 -/
 namespace C09
 open Proto
@@ -53,14 +55,12 @@ def showDetect : Py XorFile → String
   | .error e => "exc " ++ e.name
   | .ok x => s!"ok {x.nonceOff} {x.fh.tell} {tell x}"
 
-def toNats (xs : List Int) : Option (List Nat) :=
-  xs.mapM fun v => if v ≥ 0 then some v.toNat else none
-
 def step : List String → String
   | ["hist", k, off, raw, ops] => histLine false k off raw ops
   | ["histret", k, off, raw, ops] => histLine true k off raw ops
   | ["histeof", k, off, raw, ops] => histLine false k off raw ops
   | ["histwild", k, off, raw, ops] => histLine true k off raw ops
+  | ["histneg", k, off, raw, ops] => histLine true k off raw ops
   | ["nonce", k, off, raw, pos] =>
     match kindTok k, natTok off, bytesTok raw, natTok pos with
     | some k, some off, some raw, some pos =>
@@ -108,14 +108,27 @@ def step : List String → String
   | ["detectfull", k, mr, raw, bs, _tag] =>
     match kindTok k, natTok mr, bytesTok raw, natTok bs with
     | some k, some mr, some raw, some bs =>
+      showDetect (fromFileReal bs { data := raw, pos := 0, kind := k } mr)
+    | _, _, _, _ => "bad-op"
+  | ["detectlog", k, mr, raw, bs, _tag] =>
+    match kindTok k, natTok mr, bytesTok raw, natTok bs with
+    | some k, some mr, some raw, some bs =>
       let f : PyFile := { data := raw, pos := 0, kind := k }
-      -- the needle scan runs on the file as `iter_nonce_offsets` left it, but starts with seek(0)
-      match C15.iterFindNeedle bs f [0xff, 0xff, 0xff] (some 0) mr with
+      -- the two lists `from_file` logs, computed exactly as `fromFileReal` computes them
+      match iterNonceOffsets f none mr with
       | .error e => "exc " ++ e.name
-      | .ok (hits, _) =>
-        match toNats hits with
-        | none => "negative-needle-hit"
-        | some hits => showDetect (fromFileFull f mr hits)
+      | .ok (offs, f1) =>
+        match markerScan bs f1 mr with
+        | .error e => "exc " ++ e.name
+        | .ok (hits, _) =>
+          let ranked := mostCommon (counter ((hits.map Int.toNat).map (· + 3) ++ offs))
+          let res := fromFileReal bs f mr
+          -- "Found common nonce offset" is logged for every candidate up to and including the one returned
+          -- (`detect_sound_real`: every candidate ranked before the returned one failed the MZ check)
+          let tried : List (Nat × Nat) := match res with
+            | .ok x => ranked.takeWhile (fun e => e.1 != x.nonceOff) ++ ranked.filter (fun e => e.1 == x.nonceOff)
+            | .error _ => ranked
+          s!"{showDetect res} {showInts (hits.map (· + 3))} {showNats offs} {showNats (tried.map (·.1))} {showNats (tried.map (·.2))}"
     | _, _, _, _ => "bad-op"
   | _ => "bad-op"
 
